@@ -92,6 +92,11 @@ def gen_world(rng, circular=None, simple_rules: float = 0.6, max_genes: int = 12
             else:
                 parts = [[start, start + glen]]
                 end = start + glen
+                if glen >= 300 and rng.random() < 0.12:
+                    # exons with an intron (the span stays the same): two or three parts, not crossing the origin
+                    parts = [[start, start + 90], [start + glen - 120, start + glen]]
+                    if glen >= 500 and rng.random() < 0.5:
+                        parts.insert(1, [start + 150, start + 240])
         key = str(parts)
         if key in used:
             continue
